@@ -369,11 +369,12 @@ func TestVerifC17(t *testing.T) {
 		c.R.Evaluations--
 		for _, lit := range append(append([]string{"null", "true", "false", "[]", "{}", "[null]", `[1,"a"]`, `{"a":null}`, "[[]]"}, specialNumbers...), specialStrings...) {
 			runDoc(`{"k":`+lit+`}`, []string{"k", "missing"})
+			runDoc(`{"100%":`+lit+`,"%v":`+lit+`}`, []string{"100%", "%v", "%s missing"})
 			c.Count("special_values", 1)
 		}
 		// MarkupAccessor: content + mediaType combinations must not panic
-		for _, mt := range []string{`"text/html"`, `"text/plain"`, `"text/gemini"`, `"text/markdown"`, `"text/x"`, `"x"`, `5`, `null`, `""`} {
-			for _, ct := range []string{`"<p>x</p>"`, `""`, `5`, `null`, `"\u0000"`, `"=> x y\n# h"`} {
+		for _, mt := range []string{`"text/html"`, `"text/plain"`, `"text/gemini"`, `"text/markdown"`, `"text/x"`, `"x"`, `5`, `null`, `""`, `"markdown"`, `[]`, `true`, `"text/html; charset=utf-8"`, `"\u0000"`} {
+			for _, ct := range []string{`"<p>x</p>"`, `""`, `5`, `null`, `"\u0000"`, `"=> x y\n# h"`, `[]`, `"\t"`} {
 				doc := `{"content":` + ct + `,"mediaType":` + mt + `}`
 				var m map[string]any
 				json.Unmarshal([]byte(doc), &m)
@@ -382,6 +383,29 @@ func TestVerifC17(t *testing.T) {
 					mk, _, err := object.Object(m).GetMarkup("content", "mediaType")
 					if err == nil && mk == nil {
 						c.Violation("accessor:GetMarkup:nil-without-error", "GetMarkup returned neither a markup nor an error for "+doc, doc)
+					}
+					// classification: no content means "absent" whatever the media type says; wrong-typed content, or content with an unusable
+					// media type, is "wrong"; a missing media type means HTML
+					cv, chas := m["content"]
+					cref := refString(chas && cv != nil, cv)
+					want := cref.cls
+					if want == clsValue {
+						mv, mhas := m["mediaType"]
+						mref := refString(mhas && mv != nil, mv)
+						switch mref.cls {
+						case clsWrong:
+							want = clsWrong
+						case clsValue:
+							sup, sub, ok := refMedia(mref.val.(string))
+							if !ok {
+								want = clsWrong
+							} else if e := sup + "/" + sub; e != "text/plain" && e != "text/html" && e != "text/gemini" && e != "text/markdown" {
+								want = clsWrong
+							}
+						}
+					}
+					if got := classOf(err); got != want {
+						c.Violation("accessor:GetMarkup:class:"+want+"->"+got, fmt.Sprintf("GetMarkup classified %s as %s, reference says %s", doc, got, want), doc)
 					}
 				})
 			}
@@ -404,7 +428,7 @@ func TestVerifC17(t *testing.T) {
 			keys := make([]string, 0, nk+1)
 			parts := make([]string, 0, nk)
 			for k := 0; k < nk; k++ {
-				key := []string{"k", "id", "type", "name", "totalItems", "published", "url", "mediaType", "é", ""}[r.Intn(10)]
+				key := []string{"k", "id", "type", "name", "totalItems", "published", "url", "mediaType", "é", "", "50%", "%d items", "%w", "https://example.org/ns#caf%C3%A9", "%!s(MISSING)", "%[1]v", "a%"}[r.Intn(17)]
 				keys = append(keys, key)
 				parts = append(parts, strconv.Quote(key)+":"+randValue(r, 3))
 			}
